@@ -12,11 +12,14 @@
 (* the implementation returned was snapped by the harness to a rational    *)
 (* (residual test) and is recorded as an integer over the per-record       *)
 (* common denominator K ("the K-grid": recorded P stands for P/K).  The    *)
-(* reference computes intersection points itself as exact rationals; a     *)
-(* reference point that is not on the K-grid cannot be among the recorded  *)
+(* reference computes intersection points itself as exact rationals        *)
+(* <<X, Y, Z, W>> with gcd normalisation; a corner of a reference polygon  *)
+(* with area that is not on the K-grid cannot be among the recorded        *)
 (* points, which is reported as a missing corner / missing segment.        *)
-(* Magnitudes: lattice coordinates <= 3, K <= ~100 where cubic terms are   *)
-(* formed (guarded by MODEL_LIMIT), so every product stays below 2^31.     *)
+(* Magnitudes: lattice coordinates <= 3, K <= 1000 for quadratic terms and *)
+(* K <= 128 where cubic terms are formed (guarded by MODEL_LIMIT, which    *)
+(* the harness turns into a machinery error): every product stays below    *)
+(* 2^31, and TLC aborts on integer overflow rather than wrapping.          *)
 (*                                                                         *)
 (* What is stated (and nothing more):                                      *)
 (*  section  - every recorded end point lies on the plane, every recorded  *)
@@ -33,20 +36,29 @@
 (*             clip polygon (any triangulation is accepted); for the two   *)
 (*             opposite slices by one plane the parts add up to f, face by *)
 (*             face (a triangle lying IN the plane is in exactly one).     *)
-(*  capped   - 6*volume(+) + 6*volume(-) = 6*volume for a watertight,      *)
-(*             consistently wound solid; each half has the volume of the   *)
-(*             solid's part in that half space (divergence theorem on the  *)
-(*             exact clip polygons, the exact cap contributing through the *)
-(*             closing vector area); every NON-EMPTY half of a convex      *)
-(*             solid is watertight (every undirected edge of the recorded  *)
-(*             face array occurs exactly twice).                           *)
+(*  capped   - every triangle of a capped half is a piece of the positive  *)
+(*             part of the surface or lies in the cutting plane;           *)
+(*             6*volume(+) + 6*volume(-) = 6*volume for a watertight,      *)
+(*             consistently wound solid (signed cones from the origin over *)
+(*             the recorded triangles, as trimesh reports volume); each    *)
+(*             half has the volume of the solid's part in that half space  *)
+(*             (divergence theorem on the exact clip polygons, the exact   *)
+(*             cap contributing through the closing vector area) - stated  *)
+(*             for convex solids and for any solid cut in general position *)
+(*             (no vertex on the plane), only counted as an observation    *)
+(*             (NOTE_) for a non-convex solid cut through a vertex, where  *)
+(*             the section polygon is pinched; every NON-EMPTY half of a   *)
+(*             convex solid is watertight (every undirected edge of the    *)
+(*             recorded face array occurs exactly twice).                  *)
 (* Left unconstrained: isolated touching points of a section; sections     *)
 (* when an edge lies in the plane (beyond soundness); which of the two     *)
 (* opposite slices owns an in-plane triangle; what happens to unselected   *)
 (* triangles when a face subset is sliced (they must only stay inside the  *)
-(* original surface); watertightness of halves of non-convex solids and of *)
-(* empty halves; the face index reported with a segment (used only as a    *)
-(* hint, any triangle containing the segment is accepted).                 *)
+(* original surface); in-plane triangles under several planes;             *)
+(* watertightness of halves of non-convex solids and of empty halves; the  *)
+(* face index reported with a segment (used only as a hint, any triangle   *)
+(* containing the segment is accepted); how a section is subdivided into   *)
+(* segments beyond containing every exact triangle/plane segment.          *)
 (***************************************************************************)
 \* NB clause names stay below 50 characters (TLC wraps PrintT output at 80 columns).
 EXTENDS Integers, Sequences, FiniteSets, TLC, Json
@@ -84,7 +96,6 @@ Opp(pl) == [n |-> <<-pl.n[1], -pl.n[2], -pl.n[3]>>, c2 |-> -pl.c2]
 FaceIds(c) == 0..(Len(c.F) - 1)
 Vtx(c, f, j) == c.V[c.F[f + 1][j] + 1]
 FaceN(c, f) == Cross(Sub(Vtx(c, f, 2), Vtx(c, f, 1)), Sub(Vtx(c, f, 3), Vtx(c, f, 1)))     \* twice the vector area
-FacePoly(c, f) == <<Scale(c.K, Vtx(c, f, 1)), Scale(c.K, Vtx(c, f, 2)), Scale(c.K, Vtx(c, f, 3))>>
 Sel(c) == Range(c.sub)
 \* signs of the three vertices of f against the plane
 SideV(c, pl, f, j) == Side(pl, 1, Vtx(c, f, j))
@@ -103,31 +114,42 @@ InFace(c, f, P) ==
        /\ Dot(Cross(Sub(a, d), Pd), N) >= 0
 
 \* ------------------------------------------------- exact clipping of a polygon
-\* crossing of the segment P (side sP > 0) -- Q (side sQ < 0) with the plane; ok iff it is a K-grid point
-CrossPt(P, sP, Q, sQ) ==
-    LET d == sP - sQ
-        num == <<Q[1] * sP - P[1] * sQ, Q[2] * sP - P[2] * sQ, Q[3] * sP - P[3] * sQ>>
-    IN [ok |-> \A j \in 1..3 : num[j] % d = 0, p |-> <<num[1] \div d, num[2] \div d, num[3] \div d>>]
-\* Sutherland-Hodgman step: the part of the convex polygon (sequence of K-grid points) with Side >= 0
-ClipStep(poly, pl, K) ==
+\* exact rational points: <<X, Y, Z, W>> stands for (X, Y, Z) / W in lattice units, W > 0, reduced
+RECURSIVE Gcd(_, _)
+Gcd(a, b) == IF b = 0 THEN a ELSE Gcd(b, a % b)
+Reduce(h) == LET g == Gcd(Gcd(Abs(h[1]), Abs(h[2])), Gcd(Abs(h[3]), h[4]))
+             IN <<h[1] \div g, h[2] \div g, h[3] \div g, h[4] \div g>>
+SideH(pl, h) == 2 * (pl.n[1] * h[1] + pl.n[2] * h[2] + pl.n[3] * h[3]) - pl.c2 * h[4]     \* sign of n.(p - o)
+\* crossing of the segment P (side sP > 0) -- Q (side sQ < 0) with the plane
+CrossH(P, sP, Q, sQ) ==
+    Reduce(<<Q[1] * sP - P[1] * sQ, Q[2] * sP - P[2] * sQ, Q[3] * sP - P[3] * sQ, sP * Q[4] - sQ * P[4]>>)
+\* Sutherland-Hodgman step: the part of the convex polygon (sequence of rational points) with Side >= 0
+ClipStepH(poly, pl) ==
     LET n == Len(poly)
-        s == [k \in 1..n |-> Side(pl, K, poly[k])]
+        s == TLCEval([k \in 1..n |-> SideH(pl, poly[k])])
         Piece(k) == LET k2 == (k % n) + 1
-                        keep == IF s[k] >= 0 THEN <<[ok |-> TRUE, p |-> poly[k]]>> ELSE <<>>
-                        cr == IF s[k] > 0 /\ s[k2] < 0 THEN <<CrossPt(poly[k], s[k], poly[k2], s[k2])>>
-                              ELSE IF s[k] < 0 /\ s[k2] > 0 THEN <<CrossPt(poly[k2], s[k2], poly[k], s[k])>>
+                        keep == IF s[k] >= 0 THEN <<poly[k]>> ELSE <<>>
+                        cr == IF s[k] > 0 /\ s[k2] < 0 THEN <<CrossH(poly[k], s[k], poly[k2], s[k2])>>
+                              ELSE IF s[k] < 0 /\ s[k2] > 0 THEN <<CrossH(poly[k2], s[k2], poly[k], s[k])>>
                               ELSE <<>>
                     IN keep \o cr
         RECURSIVE Cat(_)
         Cat(k) == IF k = 0 THEN <<>> ELSE Cat(k - 1) \o Piece(k)
-        r == Cat(n)
-    IN [ok |-> \A k \in 1..Len(r) : r[k].ok, poly |-> [k \in 1..Len(r) |-> r[k].p]]
-RECURSIVE ClipAll(_, _, _, _)
-ClipAll(poly, planes, K, k) ==
-    IF k > Len(planes) THEN [ok |-> TRUE, poly |-> poly]
-    ELSE LET r == ClipStep(poly, planes[k], K) IN IF ~r.ok THEN r ELSE ClipAll(r.poly, planes, K, k + 1)
+    IN Cat(n)
+RECURSIVE ClipAllH(_, _, _)
+ClipAllH(poly, planes, k) == IF k > Len(planes) THEN poly ELSE ClipAllH(ClipStepH(poly, planes[k]), planes, k + 1)
+FaceH(c, f) == [j \in 1..3 |-> <<Vtx(c, f, j)[1], Vtx(c, f, j)[2], Vtx(c, f, j)[3], 1>>]
+\* a convex rational polygon (corners in order) has no area iff every fan triangle is flat; directions are
+\* reduced to primitive integer vectors before the cross product so that the terms stay small
+Prim(v) == LET g == Gcd(Gcd(Abs(v[1]), Abs(v[2])), Abs(v[3])) IN IF g = 0 THEN v ELSE <<v[1] \div g, v[2] \div g, v[3] \div g>>
+DirH(P, Q) == Prim(<<Q[1] * P[4] - P[1] * Q[4], Q[2] * P[4] - P[2] * Q[4], Q[3] * P[4] - P[3] * Q[4]>>)
+Flat(ph) == \A k \in 2..(Len(ph) - 1) : Cross(DirH(ph[1], ph[k]), DirH(ph[1], ph[k + 1])) = Zero3
+\* a rational polygon on the K-grid; ok iff every corner is a K-grid point (otherwise it cannot have been
+\* recorded); flat iff it has no area (then nothing of it needs to be recorded)
+ToGrid(ph, K) == [ok |-> \A k \in 1..Len(ph) : K % ph[k][4] = 0, flat |-> Flat(ph),
+                  poly |-> [k \in 1..Len(ph) |-> LET m == K \div ph[k][4] IN <<m * ph[k][1], m * ph[k][2], m * ph[k][3]>>]]
 \* Clip+(f): the part of triangle f on the non-negative side of all planes
-ClipFace(c, planes, f) == ClipAll(FacePoly(c, f), planes, c.K, 1)
+ClipFace(c, planes, f) == ToGrid(ClipAllH(FaceH(c, f), planes, 1), c.K)
 
 \* twice the vector area / six times the signed volume (cone from the origin) of a polygon, by fan
 PolyA2(p) == IF Len(p) < 3 THEN Zero3
@@ -142,18 +164,29 @@ EdgeOf(F, k) == LET f == (k - 1) \div 3  j == (k - 1) % 3 IN <<F[f + 1][j + 1], 
 Edges(F) == [k \in 1..(3 * Len(F)) |-> EdgeOf(F, k)]
 EdgesSorted(F) == [k \in 1..(3 * Len(F)) |-> Sorted(EdgeOf(F, k))]
 Occ(S, e) == {k \in 1..Len(S) : S[k] = e}
-Watertight(F) == LET S == EdgesSorted(F) IN \A e \in Range(S) : Cardinality(Occ(S, e)) = 2
+Watertight(F) == LET S == TLCEval(EdgesSorted(F)) IN \A e \in Range(S) : Cardinality(Occ(S, e)) = 2
 WindingConsistent(F) ==
-    LET S == EdgesSorted(F)  E == Edges(F) IN
+    LET S == TLCEval(EdgesSorted(F))  E == TLCEval(Edges(F)) IN
     \A e \in Range(S) : LET o == Occ(S, e) IN Cardinality(o) = 2 => \A a, b \in o : a # b => E[a] = <<E[b][2], E[b][1]>>
 NonDegenerate(c) == \A f \in FaceIds(c) : FaceN(c, f) # Zero3
 Convex(c) == \A f \in FaceIds(c) : \A v \in 1..Len(c.V) : Dot(FaceN(c, f), Sub(c.V[v], Vtx(c, f, 1))) <= 0
+
+\* facts about the input mesh that do not depend on the plane, computed once per seed name (all records of
+\* one seed carry the same mesh: checked by RefSane)
+MeshVol6(c) == SumI([k \in 1..Len(c.F) |-> Det3(Vtx(c, k - 1, 1), Vtx(c, k - 1, 2), Vtx(c, k - 1, 3))], Len(c.F))
+SeedNames == {Cases[k].seed : k \in 1..Len(Cases)}
+SeedCase(nm) == Cases[CHOOSE k \in 1..Len(Cases) : Cases[k].seed = nm]
+SeedInfo == TLCEval([nm \in SeedNames |->
+                LET c == SeedCase(nm) IN
+                [V |-> c.V, F |-> c.F, nondeg |-> NonDegenerate(c), convex |-> Convex(c), vol6 |-> MeshVol6(c),
+                 solid |-> Watertight(c.F) /\ WindingConsistent(c.F)]])
+Info(c) == SeedInfo[c.seed]
 
 \* ---------------------------------------------------------------- sections
 \* exact intersection segment of triangle f with the plane, when it is a proper segment: the vertices of
 \* Clip+(f) that lie on the plane (two of them).  Only used when no selected edge lies in the plane.
 ExactSeg(c, pl, f) ==
-    LET r == ClipStep(FacePoly(c, f), pl, c.K)
+    LET r == ClipFace(c, <<pl>>, f)
         on == {r.poly[k] : k \in {k \in 1..Len(r.poly) : Side(pl, c.K, r.poly[k]) = 0}}
     IN [ok |-> r.ok, seg |-> on]
 Crosses(c, pl, f) == \E j, k \in 1..3 : SideV(c, pl, f, j) > 0 /\ SideV(c, pl, f, k) < 0
@@ -165,15 +198,16 @@ SegsClause(c, pl, segs, hint, what) ==
         rec == {{segs[k][1], segs[k][2]} : k \in 1..Len(segs)}
         noEdge == \A f \in sel : ~EdgeInPlane(c, pl, f)
         cut == {f \in sel : Crosses(c, pl, f)}
+        exact == TLCEval([f \in cut |-> ExactSeg(c, pl, f)])
         general == \A v \in 1..Len(c.V) : Side(pl, 1, c.V[v]) # 0
         Deg(P) == Cardinality({p \in (1..Len(segs)) \X (1..2) : segs[p[1]][p[2]] = P})
     IN
     IF \E k \in 1..Len(segs) : \E e \in 1..2 : Side(pl, c.K, segs[k][e]) # 0 THEN what \o "_point_off_plane"
     ELSE IF \E k \in 1..Len(segs) :
               ~((hint[k] \in sel /\ SegIn(k, hint[k])) \/ \E f \in sel : SegIn(k, f)) THEN what \o "_segment_off_surface"
-    ELSE IF noEdge /\ \E f \in cut : ~ExactSeg(c, pl, f).ok THEN what \o "_misses_part_of_intersection"
-    ELSE IF noEdge /\ \E f \in cut : ExactSeg(c, pl, f).seg \notin rec THEN what \o "_misses_part_of_intersection"
-    ELSE IF general /\ sel = FaceIds(c) /\ Watertight(c.F) /\ \E k \in 1..Len(segs) : \E e \in 1..2 : Deg(segs[k][e]) % 2 = 1
+    ELSE IF noEdge /\ \E f \in cut : ~exact[f].ok THEN what \o "_misses_part_of_intersection"
+    ELSE IF noEdge /\ \E f \in cut : exact[f].seg \notin rec THEN what \o "_misses_part_of_intersection"
+    ELSE IF general /\ sel = FaceIds(c) /\ Info(c).solid /\ \E k \in 1..Len(segs) : \E e \in 1..2 : Deg(segs[k][e]) % 2 = 1
          THEN what \o "_loops_not_closed"
     ELSE "ok"
 
@@ -197,25 +231,29 @@ InPart(c, planes, f, T) ==
                     /\ (f \in Sel(c) => \A q \in 1..Len(planes) : Side(planes[q], c.K, T[j]) >= 0)
 \* attribution of every output triangle: an input face id, -1 (in no face part), -2 (only with reversed normal)
 Attr(c, planes, o) ==
-    [t \in 1..Len(o.f) |->
+    TLCEval([t \in 1..Len(o.f) |->
         LET T == TriPts(o, t)  h == o.src[t]
             Good(f) == InPart(c, planes, f, T) /\ Dot(FaceN(c, f), TriA2(T)) >= 0
         IN IF h \in FaceIds(c) /\ Good(h) THEN h
            ELSE LET G == {f \in FaceIds(c) : Good(f)} IN
                 IF G # {} THEN SetMin(G)
-                ELSE IF \E f \in FaceIds(c) : InPart(c, planes, f, T) THEN -2 ELSE -1]
-FaceSum(o, attr, f) == SumV([t \in 1..Len(o.f) |-> IF attr[t] = f THEN TriA2(TriPts(o, t)) ELSE Zero3], Len(o.f))
+                ELSE IF \E f \in FaceIds(c) : InPart(c, planes, f, T) THEN -2 ELSE -1])
+FaceSum(o, attr, f) == LET ts == SelectSeq([t \in 1..Len(o.f) |-> t], LAMBDA t : attr[t] = f)
+                       IN SumV([k \in 1..Len(ts) |-> TriA2(TriPts(o, ts[k]))], Len(ts))
 Touched(c, planes, f) == \E q \in 1..Len(planes) : InPlane(c, planes[q], f)
 
 SideClause(c, planes, o, attr, what) ==
     LET sel == {f \in Sel(c) : ~Touched(c, planes, f)}
-        Diff(f) == Dot(FaceN(c, f), Sub(FaceSum(o, attr, f), PolyA2(ClipFace(c, planes, f).poly)))
+        clip == TLCEval([f \in sel |-> ClipFace(c, planes, f)])
+        allOk == \A f \in sel : clip[f].ok \/ clip[f].flat
+        want(f) == IF clip[f].flat THEN Zero3 ELSE PolyA2(clip[f].poly)
+        diff == TLCEval([f \in sel |-> IF allOk THEN Dot(FaceN(c, f), Sub(FaceSum(o, attr, f), want(f))) ELSE 0])
     IN
     IF \E t \in 1..Len(o.f) : attr[t] = -1 THEN what \o "_triangle_outside_positive_part"
     ELSE IF \E t \in 1..Len(o.f) : attr[t] = -2 THEN what \o "_triangle_orientation_reversed"
-    ELSE IF \E f \in sel : ~ClipFace(c, planes, f).ok THEN what \o "_misses_corner_of_positive_part"
-    ELSE IF \E f \in sel : Diff(f) < 0 THEN what \o "_misses_part_of_positive_side"
-    ELSE IF \E f \in sel : Diff(f) > 0 THEN what \o "_covers_positive_part_twice"
+    ELSE IF ~allOk THEN what \o "_misses_corner_of_positive_part"
+    ELSE IF \E f \in sel : diff[f] < 0 THEN what \o "_misses_part_of_positive_side"
+    ELSE IF \E f \in sel : diff[f] > 0 THEN what \o "_covers_positive_part_twice"
     ELSE "ok"
 
 \* c.pos: slice by c.planes; c.neg (c.hasneg): slice by the opposite of the single plane
@@ -237,10 +275,9 @@ SliceClause(c) ==
 
 \* ------------------------------------------------------------ capped halves
 Vol6(o) == SumI([t \in 1..Len(o.f) |-> LET T == TriPts(o, t) IN Det3(T[1], T[2], T[3])], Len(o.f))
-MeshVol6(c) == SumI([k \in 1..Len(c.F) |-> Det3(Vtx(c, k - 1, 1), Vtx(c, k - 1, 2), Vtx(c, k - 1, 3))], Len(c.F))
 UnitAxis(n) == {j \in 1..3 : Abs(n[j]) = 1}
 \* exact clip of every face against the plane
-HalfPolys(c, pl) == [k \in 1..Len(c.F) |-> ClipStep(FacePoly(c, k - 1), pl, c.K)]
+HalfPolys(c, pl) == TLCEval([k \in 1..Len(c.F) |-> ClipFace(c, <<pl>>, k - 1)])
 HalfOk(H) == \A k \in 1..Len(H) : H[k].ok
 HalfA2(H) == SumV([k \in 1..Len(H) |-> PolyA2(H[k].poly)], Len(H))
 \* twice (six times the volume of solid /\ half space), scaled by K^3: the clipped surface as cones from the
@@ -251,20 +288,32 @@ HalfVol12(c, pl, H) ==
         alpha == HalfA2(H)[j] * pl.n[j]
     IN 2 * SumI([k \in 1..Len(H) |-> PolyFan6(H[k].poly)], Len(H)) - alpha * pl.c2 * c.K
 
+\* a triangle of a capped half is a piece of the positive part of the surface or lies in the cutting plane
+CapTriOk(c, pl, o, t) ==
+    LET T == TriPts(o, t)  h == o.src[t]
+        Good(f) == InPart(c, <<pl>>, f, T) /\ Dot(FaceN(c, f), TriA2(T)) >= 0
+    IN \/ \A j \in 1..3 : Side(pl, c.K, T[j]) = 0
+       \/ (h \in FaceIds(c) /\ Good(h))
+       \/ \E f \in FaceIds(c) : Good(f)
 CapClause(c) ==
     LET pl == c.planes[1]  K3 == c.K * c.K * c.K
         Hp == HalfPolys(c, pl)  Hn == HalfPolys(c, Opp(pl))
+        general == \A v \in 1..Len(c.V) : Side(pl, 1, c.V[v]) # 0
+        exactOk == UnitAxis(pl.n) # {} /\ HalfOk(Hp) /\ HalfOk(Hn)
+        halfBad == 2 * Vol6(c.pos) # HalfVol12(c, pl, Hp) \/ 2 * Vol6(c.neg) # HalfVol12(c, Opp(pl), Hn)
     IN
     IF ~WellFormed(c.pos) \/ ~WellFormed(c.neg) THEN "capped_face_index_out_of_range"
-    ELSE IF c.K > 100 THEN "MODEL_LIMIT_grid_too_fine_for_volumes"
-    ELSE IF ~(Watertight(c.F) /\ WindingConsistent(c.F)) THEN "ok"              \* not a solid: nothing stated
-    ELSE IF Vol6(c.pos) + Vol6(c.neg) # K3 * MeshVol6(c) THEN "capped_volumes_do_not_add_up"
-    ELSE IF UnitAxis(pl.n) # {} /\ HalfOk(Hp) /\ 2 * Vol6(c.pos) # HalfVol12(c, pl, Hp)
-         THEN "capped_half_is_not_volume_of_half_solid"
-    ELSE IF UnitAxis(pl.n) # {} /\ HalfOk(Hn) /\ 2 * Vol6(c.neg) # HalfVol12(c, Opp(pl), Hn)
-         THEN "capped_half_is_not_volume_of_half_solid"
-    ELSE IF Convex(c) /\ Len(c.pos.f) > 0 /\ ~Watertight(c.pos.f) THEN "half_of_convex_solid_not_watertight"
-    ELSE IF Convex(c) /\ Len(c.neg.f) > 0 /\ ~Watertight(c.neg.f) THEN "half_of_convex_solid_not_watertight"
+    ELSE IF \E t \in 1..Len(c.pos.f) : ~CapTriOk(c, pl, c.pos, t) THEN "capped_triangle_not_on_surface_nor_in_plane"
+    ELSE IF \E t \in 1..Len(c.neg.f) : ~CapTriOk(c, Opp(pl), c.neg, t) THEN "capped_triangle_not_on_surface_nor_in_plane"
+    ELSE IF c.K > 128 THEN "MODEL_LIMIT_grid_too_fine_for_volumes"
+    ELSE IF ~Info(c).solid THEN "ok"              \* not a solid: nothing stated
+    ELSE IF Vol6(c.pos) + Vol6(c.neg) # K3 * Info(c).vol6 THEN "capped_volumes_do_not_add_up"
+    \* each half has the volume of the solid's part in its half space: for convex solids, and for every solid
+    \* cut in general position (no vertex on the plane: the section is a set of simple loops)
+    ELSE IF (Info(c).convex \/ general) /\ exactOk /\ halfBad THEN "capped_half_is_not_volume_of_half_solid"
+    ELSE IF c.note /\ exactOk /\ halfBad THEN "NOTE_nonconvex_half_volume_differs"
+    ELSE IF Info(c).convex /\ Len(c.pos.f) > 0 /\ ~Watertight(c.pos.f) THEN "half_of_convex_solid_not_watertight"
+    ELSE IF Info(c).convex /\ Len(c.neg.f) > 0 /\ ~Watertight(c.neg.f) THEN "half_of_convex_solid_not_watertight"
     ELSE "ok"
 
 \* ---------------------------------------------------------------- validator
@@ -286,19 +335,20 @@ RefSane ==
     LET c == Cases[i]  pl == c.planes[1]
         Hp == HalfPolys(c, pl)  Hn == HalfPolys(c, Opp(pl))
         bad ==
-          IF ~NonDegenerate(c) THEN "degenerate_input_face"
+          IF c.V # Info(c).V \/ c.F # Info(c).F THEN "seed_name_does_not_determine_the_mesh"
+          ELSE IF ~Info(c).nondeg THEN "degenerate_input_face"
           ELSE IF \E f \in Sel(c) : f \notin FaceIds(c) THEN "selection_out_of_range"
           \* the two exact clips of a triangle partition it (whenever the crossings are grid points)
           ELSE IF \E f \in FaceIds(c) :
-                    LET p == ClipStep(FacePoly(c, f), pl, c.K)  n == ClipStep(FacePoly(c, f), Opp(pl), c.K) IN
-                    p.ok /\ n.ok /\ Add3(PolyA2(p.poly), PolyA2(n.poly)) # Scale(c.K * c.K, FaceN(c, f))
+                    LET p == ClipFace(c, <<pl>>, f)  n == ClipFace(c, <<Opp(pl)>>, f) IN
+                    ~InPlane(c, pl, f) /\ p.ok /\ n.ok /\ Add3(PolyA2(p.poly), PolyA2(n.poly)) # Scale(c.K * c.K, FaceN(c, f))
                THEN "clips_do_not_partition_the_triangle"
           \* seeds claimed to be solids are closed and consistently wound
-          ELSE IF c.solid /\ ~(Watertight(c.F) /\ WindingConsistent(c.F)) THEN "seed_is_not_a_solid"
+          ELSE IF c.solid /\ ~Info(c).solid THEN "seed_is_not_a_solid"
           \* the clipped surface of a solid is closed by a cap parallel to the plane; half volumes add up
-          ELSE IF c.kind = "cap" /\ c.K <= 100 /\ UnitAxis(pl.n) # {} /\ HalfOk(Hp) /\ HalfOk(Hn) THEN
+          ELSE IF c.kind = "cap" /\ c.K <= 128 /\ UnitAxis(pl.n) # {} /\ HalfOk(Hp) /\ HalfOk(Hn) THEN
                IF Cross(HalfA2(Hp), pl.n) # Zero3 THEN "closing_area_not_parallel_to_normal"
-               ELSE IF HalfVol12(c, pl, Hp) + HalfVol12(c, Opp(pl), Hn) # 2 * c.K * c.K * c.K * MeshVol6(c)
+               ELSE IF HalfVol12(c, pl, Hp) + HalfVol12(c, Opp(pl), Hn) # 2 * c.K * c.K * c.K * Info(c).vol6
                     THEN "exact_half_volumes_do_not_add_up"
                ELSE IF HalfVol12(c, pl, Hp) < 0 \/ HalfVol12(c, Opp(pl), Hn) < 0 THEN "negative_exact_half_volume"
                ELSE "ok"
